@@ -154,7 +154,8 @@ def se23_position_control(ctx, rng, N):
     zeta = np.concatenate([rng.normal(size=(N, 6)) * rng.choice([0.0, 0.2, 2.0], N)[:, None], O.random_axes(rng, N) * rng.uniform(0, 2.5, N)[:, None]], axis=1)
     at = rng.normal(size=(N, 3)) * rng.choice([0.0, 1.0, 4.0], N)[:, None]
     psi = rng.uniform(-PI, PI, N)
-    qc = SO3S["quat"].from_R(O.euler321_to_R(np.stack([psi, np.zeros(N), np.zeros(N)], axis=1)), rng)
+    # camera attitude: general (only its yaw matters), some pure yaw, both quaternion signs
+    qc = SO3S["quat"].from_R(O.euler321_to_R(np.stack([psi, rng.uniform(-1.2, 1.2, N) * rng.choice([0, 1], N), rng.uniform(-3, 3, N) * rng.choice([0, 1], N)], axis=1)), rng)
     zi = rng.uniform(-5, 5, N)
     dt = rng.uniform(1e-3, 0.1, N)
     k = N // 4
